@@ -47,7 +47,7 @@ where
             func,
             call_count,
             current_index: 0,
-            done: false,
+            done: call_count == 0,
             _phantom: core::marker::PhantomData,
         }
     }
